@@ -41,5 +41,11 @@ CLAIMED["C13"] = dict(
     note="Trusted: the enumeration of non-determinism sources is complete for this code base (no threads, no time, no randomness - see C17 for the file-format module); attribute-name based identification of shared objects.",
 )
 
+CLAIMED["C02"] = dict(
+    technique="CFG dominance / post-dominance on the checked loader (must-pass-through parse -> analysis -> allowing verdict edge), def-use of the stream parameter, handler reachability, resolution of what each arming site binds",
+    level="Decides the fail-closed structure: no path to a real unpickler or to a value return avoids the parse of the caller's stream, the safety analysis of that very object and the allowing edge of `severity <= threshold`; the refusing edge only raises UnsafeFileError carrying that verdict; no exception handler can fall through to a load; the unpickler is fed the re-serialisation of the analysed object and the stream is touched exactly once (no TOCTOU); every arming path (checked loader, global hook, context manager, import hook) binds that loader or a faithful wrapper. That the returned object equals the stock unpickler's is a value property (C06) and is not claimed.",
+    note="Trusted: C10.order for the meaning of `<=`; C06.concat for dumps(); name resolution of sa/model.py; the list of real unpickler entry points (UNPICKLERS).",
+)
+
 _NOT_YET = "checker not built yet in this session (planned per DESIGN.md section 3); nothing is claimed until it exists"
 NOT_APPLICABLE = {p: _NOT_YET for p in [f"C{i:02d}" for i in range(1, 20)]}
